@@ -1,6 +1,7 @@
 import VermouthModel.C13_Reader
 import VermouthModel.C13_Mapping
 import VermouthModel.C13_Backmap
+import VermouthModel.C13_Dir
 import Generated.C13Tables
 open Proto C13
 
@@ -49,10 +50,19 @@ def encIntersM (l : List Inter) : String :=
 def encNodes (c : Ctx) : String :=
   encList (c.nodes.map fun n => encList [encStr n.1, encAttrs n.2])
 
+/-- the declared columns of a block atom as loaded: atype, resname, resid, charge_group -/
+def encAtomCols (c : Ctx) : String :=
+  encList (c.nodes.map fun n => encList (["atype", "resname", "resid", "charge_group"].map fun k =>
+    encStr (match n.2.get k with | some v => reprJ v | none => "-")))
+
 def encDump (d : Dump) : String :=
   let blocks := d.blocks.map fun (k, (_, c)) =>
-    encList [encOptStr k, encList (c.nodes.map fun n => encStr n.1), encInters c.inters]
-  let links := d.links.map fun (_, c) => encList [encNodes c, encInters c.inters, encInters c.removed]
+    encList [encOptStr k, encList (c.nodes.map fun n => encStr n.1), encInters c.inters, encAtomCols c,
+             encOptInt c.nrexcl]
+  let links := d.links.map fun (_, c) => encList [encNodes c, encInters c.inters, encInters c.removed,
+    encList (c.nonEdges.map fun e => encList [encStr e.1, encAttrs e.2]),
+    encList (c.patterns.map fun pat => encList (pat.map fun a => encList [encStr a.1, encAttrs a.2])),
+    encList ((c.features.mergeSort strLe).map encStr)]
   let mods := d.mods.map fun (k, (_, c)) => encList [encOptStr k, encNodes c, encInters c.inters]
   encList [encList blocks, encList links, encList mods]
 
@@ -60,7 +70,7 @@ def ffTab : List Entry := C13.Gen.ffKeys.map fun (p, m, c) => { path := p, metho
 def itpTab : List Entry := C13.Gen.itpKeys.map fun (p, m, c) => { path := p, method := m, ctype := c }
 def itpIdx : List (String × List Idx) :=
   C13.Gen.itpAtomIdxs.map fun (s, l) => (s, l.map fun (k, a, b) =>
-    if k = 0 then Idx.pos a else if k = 1 then Idx.slice a (some b) else Idx.slice a none)
+    if k = 0 then Idx.pos a else if k = 1 then Idx.slice a (some b) else if k = 2 then Idx.slice a none else Idx.bad)
 
 def lineOf (t : Tok) : Option Line := do
   match ← t.list? with
@@ -78,6 +88,29 @@ def encBody (b : Nat × List (Path × String)) : String :=
 
 def mapParams : MParams (List (Path × String)) :=
   { T := C13.Gen.mapKeys, handle := fun p t c => some (c ++ [(p, t)]), fresh := [] }
+
+/-! ### directories -/
+
+def dirEntryOf (t : Tok) : Option C13.Dir.DirEntry := do
+  match ← t.list? with
+  | [n, Tok.int d, ls] => pure { name := ← n.str?, isDir := d != 0, lines := ← strs? ls }
+  | _ => none
+
+def encVars (v : C13.Dir.Vars) : String :=
+  encList (v.map fun kv => encList [encStr kv.1, encStr (reprJ kv.2)])
+
+def encFF (ff : C13.Dir.FF) : String :=
+  encList [encDump { blocks := ff.blocks, links := ff.links, mods := ff.mods }, encVars ff.vars]
+
+partial def treeOf (t : Tok) : Option C13.Dir.Tree := do
+  match ← t.list? with
+  | [Tok.int 0, n, ls] => pure (.file (← n.str?) (← strs? ls))
+  | [Tok.int 1, n, ch] => pure (.dir (← n.str?) (← (← ch.list?).mapM treeOf))
+  | _ => none
+
+def encRKey : C13.Dir.RKey → String
+  | .name s => encList [encNat 0, encStr s]
+  | .names l => encList [encNat 1, encList (l.map encStr)]
 
 def handle (_ : Unit) (toks : List Tok) : Unit × String :=
   let r : Option String :=
@@ -132,7 +165,8 @@ def handle (_ : Unit) (toks : List Tok) : Unit × String :=
         let ls ← strs? ls
         match readITP itpIdx itpTab ls with
         | some bs => pure (encList (bs.map fun (k, (_, c)) =>
-            encList [encOptStr k, encList (c.nodes.map fun n => encStr n.1), encIntersM c.inters]))
+            encList [encOptStr k, encList (c.nodes.map fun n => encStr n.1), encIntersM c.inters, encAtomCols c,
+                     encOptInt c.nrexcl]))
         | none => pure "error"
     | [Tok.str "ffdisp", ls] => do
         -- dispatcher only (bodies), table and routes of the FF reader
@@ -145,6 +179,80 @@ def handle (_ : Unit) (toks : List Tok) : Unit × String :=
         let ls ← (← ls.list?).mapM lineOf
         match mapRun mapParams ls with
         | some s => pure (encList (s.out.map encBody))
+        | none => pure "error"
+    | [Tok.str "ffdir", dir, name, ls] => do
+        -- ForceField(directory, name) on a directory listing (os.scandir order)
+        let dir ← dir.optStr?
+        let name ← name.optStr?
+        let ls ← (← ls.list?).mapM dirEntryOf
+        let parsers := C13.Gen.ffDirParsers
+        if dir.isSome && !C13.Dir.modelled parsers ls then pure "unmodelled"
+        else match C13.Dir.ffInit C13.Gen.natoms ffTab parsers (dir.map fun d => (d, ls)) name with
+          | some (n, ff) =>
+            let order := if dir.isSome then C13.Dir.readOrder (parsers.map (·.1)) ls else []
+            pure (encList [encStr n, encList (order.map fun e => encStr e.name), encFF ff])
+          | none => pure "error"
+    | [Tok.str "basedisp", tab, ls] => do
+        -- the base SectionLineParser (finalize_section does nothing) on an arbitrary dispatch table
+        let tab ← (← tab.list?).mapM strs?
+        let ls ← (← ls.list?).mapM lineOf
+        let P : MParams (List (Path × String)) :=
+          { T := tab, handle := fun p t c => some (c ++ [(p, t)]), fresh := [] }
+        match mapRun P ls with
+        | some s => pure ("ok " ++ encList ((s.out.flatMap (·.2) ++ s.cur.2).map fun (p, t) =>
+            encList [encList (p.map encStr), encStr t]))
+        | none => pure "error"
+    | [Tok.str "itpsplit", toks, idxs] => do
+        -- ITPDirector._split_atoms_and_parameters(tokens, atom_idxs)
+        let toks ← strs? toks
+        let idxs ← (← idxs.list?).mapM fun e => do
+          match ← e.list? with
+          | [Tok.int 0, Tok.int a] => pure (Idx.pos a.toNat)
+          | [Tok.int 1, Tok.int a, Tok.int b] => pure (Idx.slice a.toNat (some b.toNat))
+          | [Tok.int 2, Tok.int a] => pure (Idx.slice a.toNat none)
+          | _ => pure Idx.bad
+        match idxPositions toks.length idxs with
+        | some pos =>
+          let atoms := pos.filterMap fun i => toks[i]?
+          let params := (List.range toks.length).filterMap fun i => if pos.contains i then none else toks[i]?
+          pure ("ok " ++ encList (atoms.map encStr) ++ " " ++ encList (params.map encStr))
+        | none => pure "error"
+    | [Tok.str "pyint", x] => do
+        let x ← x.str?
+        match pyInt? x with
+        | some i => pure ("ok " ++ encInt i)
+        | none => pure "error"
+    | [Tok.str "findffs", pre, top] => do
+        -- find_force_fields(directory, force_fields): pre := [ [name [lines of a .ff file read before]] ... ]
+        let parsers := C13.Gen.ffDirParsers
+        let pre ← (← pre.list?).mapM fun e => do
+          match ← e.list? with
+          | [n, ls] => do
+            let ff ← C13.Dir.readFFInto C13.Gen.natoms ffTab {} (← strs? ls)
+            pure (← n.str?, ff)
+          | _ => none
+        let top ← (← top.list?).mapM fun e => do
+          match ← e.list? with
+          | [n, Tok.int 0] => pure (← n.str?, (none : Option (List C13.Dir.DirEntry)))
+          | [n, Tok.int 1, ls] => pure (← n.str?, some (← (← ls.list?).mapM dirEntryOf))
+          | _ => none
+        match C13.Dir.findForceFields C13.Gen.natoms ffTab parsers pre top with
+        | some d => pure (encList (d.map fun (n, ff) => encList [encStr n, encFF ff]))
+        | none => pure "error"
+    | [Tok.str "splitext", n] => do
+        let n ← n.str?
+        pure (encList [encStr (C13.Dir.splitExt n), encStr (C13.Dir.basename n)])
+    | [Tok.str "mapdir", blib, mlib, tree] => do
+        let blib ← C13.Backmap.libOf blib
+        let mlib ← C13.Mapping.libOf mlib
+        let ch ← (← tree.list?).mapM treeOf
+        let readMap := fun (ls : List String) => (C13.Backmap.readBackmap blib ls).map fun outs =>
+          outs.map fun o => ((some o.fromFF, some o.toFF, C13.Dir.RKey.name o.name) : C13.Dir.MKey)
+        let readMapping := fun (ls : List String) => (C13.Mapping.readMapping mlib ls).map fun es =>
+          (C13.Mapping.collapse es).map fun k => ((k.1.1, k.1.2.1, C13.Dir.RKey.names k.1.2.2) : C13.Dir.MKey)
+        match C13.Dir.readMapDir readMap readMapping ch with
+        | some rows => pure (encList (rows.map fun (k, v) =>
+            encList [encOptStr k.1, encOptStr k.2.1, encRKey k.2.2, encStr v.1, encNat v.2]))
         | none => pure "error"
     | Tok.str "mapping" :: args => C13.Mapping.handleOp args
     | Tok.str "backmap" :: args => C13.Backmap.handleOp args
